@@ -369,14 +369,25 @@ def _build(ck):
             log['t'] = STR.PStr(new_l + [[COMMA]] + G.R.pieces + [[MINUS, GT]] + G.Sr.pieces)
             return log['t']
 
+        outs_t = ST.LeafV(z3.Const('out_structure_of_the_transpose', ST.Leaf))
+
         def outs_contract(interp, fi, args, kwargs):
-            log['outs_calls'] += 1
-            return outs
+            if args and args[0] is o:
+                log['outs_calls'] += 1
+                return outs
+            log['outs_t_calls'] = log.get('outs_t_calls', 0) + 1
+            log['outs_t_of'] = args[0] if args else None
+            return outs_t
         S.I.contracts = {f'{CLS}._get_transposed_subscripts': gts_contract,
                          'furax._base.core.AbstractLinearOperator.out_structure': outs_contract}
         out = S.call(S.I.getattr(o, 'transpose'), [])
+        same_shapes = zbool(z_and(z_eq(outs_t.shape.length, ins.shape.length),
+                                  ins.shape.forall(lambda i, e: z_eq(e, outs_t.shape.get(i)))))
         if out.raised('ValueError'):
-            S.oblige('exc', log['gts_raised'], tag='ValueError-only-from-the-subscript-rewriting')
+            # refused: by the subscript rewriting, or because the rewritten operator does not map back onto the input
+            # shapes (einsum broadcasts the ellipsis dimensions of the blocks: no exact transpose by rewriting)
+            S.oblige('exc', z3.Or(z3.BoolVal(bool(log['gts_raised'])), z3.Not(same_shapes)),
+                     tag='ValueError-only-from-the-subscript-rewriting-or-a-shape-changing-round-trip')
             return
         if not out.normal:
             S.oblige('exc', False, tag=f'undeclared-{out.value.name}')
@@ -394,21 +405,12 @@ def _build(ck):
         st = t.fields.get('subscripts')
         subs_ok = isinstance(st, SSeq) and z_eq(st, log['t'])
         S.oblige('post', subs_ok, tag='subscripts-are-the-rewritten-ones')
-        # struct facet: outs(o.T) = ins(o).  Lemma instance (LA10, structure part): an operator built from the SAME
-        # blocks, the rewritten subscripts and outs(o) as input structure has output structure ins(o) PROVIDED the
-        # ellipsis dimensions of the blocks do not enlarge those of the input (einsum broadcasts `...`).  Nothing in
-        # the constructor or in transpose() establishes that proviso: finding C14-ellipsis-broadcasts-input.
-        wired = (t.fields.get('blocks') is blocks and t.fields.get('_in_structure') is outs and isinstance(st, SSeq))
-        same = z3.Bool('outs(o.T)==ins(o)')
-        enlarges = z3.Bool('ellipsis-dims-of-blocks-enlarge-the-input')
-        S.inputs['ellipsis_enlarges_input'] = enlarges
-        S.assume(z3.Implies(z3.And(z3.Not(enlarges), z3.BoolVal(bool(wired))), same))
-        cls_ = S.choose(2)
-        S.assume(enlarges if cls_ else z3.Not(enlarges))
-        for ob in S.oblige('post', same, exact=False, tag='struct:outs(o.T)==ins(o)',
-                           finding='C14-ellipsis-broadcasts-input' if cls_ else None,
-                           oracle={'name': 'broadcast_input' if cls_ else 'structures'}):
-            ob.hyps = ob.hyps[-2:]          # the lemma instance and the class; the wiring facts are the posts above
+        # struct facet: an accepted transpose maps back onto the input shapes, outs(o.T) ~ ins(o): the real body compares
+        # the leaf shapes of the rewritten operator's output structure with those of its own input structure and refuses
+        # otherwise (repair of finding C14-ellipsis-broadcasts-input: einsum broadcasts `...` of the blocks)
+        S.oblige('post', log.get('outs_t_calls', 0) >= 1 and log.get('outs_t_of') is t,
+                 tag='struct:the-output-structure-of-the-rewritten-operator-is-inspected')
+        S.oblige('post', same_shapes, tag='struct:shapes-of-outs(o.T)==shapes-of-ins(o)', oracle={'name': 'broadcast_input'})
     ck.explore(f'{CLS}.transpose', transpose, T)
 
     # ------------------------------------------------------------------ mv
